@@ -34,6 +34,8 @@ READS_DESC = (
     "list_trs", "list_trs_nodup", "group_by", "group_by_sorted",
     "group_by_nested", "deduce_layout", "repr", "str", "flags", "getitem",
     "copy_tracts", "to_standard_list", "require_colon",
+    "group_by_sort1", "group_by_nested_sort1", "iterate", "copy_then_edit",
+    "std_list_clear", "filter_result_edit", "concat",
 )
 READS_TRACT = (
     "to_dict", "to_list", "quick_desc", "quick_desc_short", "repr", "str",
@@ -78,7 +80,8 @@ def gen_plan(rng):
         if rng.random() < 0.08:
             kw["layout"] = rng.choice(opgen.LAYOUTS)
         ops.append({"op": "create", "cls": "PLSSDesc",
-                    "text": corpus.gen_desc(rng),
+                    "text": (rng.choice(sorted(corpus.WITNESS.values()))
+                             if rng.random() < 0.15 else corpus.gen_desc(rng)),
                     "config": opgen.gen_config_text(rng, hi=3),
                     "kw": kw})
         pkw_names = opgen.PLSS_PARSE_KW
@@ -90,7 +93,10 @@ def gen_plan(rng):
         elif r < 0.7:
             kw["parse_qq"] = False
         ops.append({"op": "create", "cls": "Tract",
-                    "text": corpus.gen_block(rng, want_flags=rng.random() < 0.5),
+                    "text": (rng.choice(sorted(corpus.TRACT_WITNESS.values()))
+                             + rng.choice(("", ", Lots 1, 1", ", NE/4, NE/4"))
+                             if rng.random() < 0.35 else
+                             corpus.gen_block(rng, want_flags=rng.random() < 0.5)),
                     "trs": corpus.gen_trs_string(rng),
                     "config": opgen.gen_config_text(
                         rng, names=opgen.TRACT_LEVEL + ("default_ns", "ocr_scrub"), hi=2),
@@ -133,6 +139,7 @@ def _gen_op(rng, cls, kind, pkw_names):
                 "kw": opgen.gen_kw(rng, pkw_names, 0, 3)}
     if kind == "parse_nc":
         return {"op": "parse", "commit": False,
+                "use_ret": rng.random() < 0.3,
                 "kw": opgen.gen_kw(rng, pkw_names, 0, 3)}
     if kind == "parse_tracts":
         cfg = None
@@ -232,6 +239,30 @@ def _do_read(subj, what):
         return subj.group_by(["twprge", "sec"], sort_key="s.rev")
     if what == "group_by_nested":
         return subj.group_by_nested(["twp", "rge"])
+    if what == "group_by_sort1":
+        return subj.group_by("twprge", sort_key="s.rev,i.rev")
+    if what == "group_by_nested_sort1":
+        return subj.group_by_nested("twp", sort_key="s.rev")
+    if what == "iterate":
+        return [t.trs for t in subj] + [len(subj.tracts)]
+    if what == "copy_then_edit":
+        c = subj.tracts.copy()
+        c.custom_sort("s.rev")
+        if len(c):
+            c.pop()
+        return len(c)
+    if what == "std_list_clear":
+        lst = subj.tracts.to_standard_list()
+        lst.clear()
+        return None
+    if what == "filter_result_edit":
+        f = subj.filter(lambda t: True)
+        f.reverse()
+        if len(f):
+            f.pop(0)
+        return len(f)
+    if what == "concat":
+        return len(subj.tracts + subj.tracts) + len(subj.tracts * 2)
     if what == "deduce_layout":
         return subj.deduce_layout()
     if what == "repr":
@@ -263,6 +294,20 @@ def _do_read(subj, what):
     raise KeyError(what)
 
 
+def _use_returned(pytrs, ret):
+    """A caller working with what a dry run returned (its own objects now)."""
+    if isinstance(ret, pytrs.TractList):
+        ret.parse_tracts(qq_depth=1)
+        ret.config_tracts("clean_qq")
+        ret.custom_sort("s.rev")
+        if len(ret):
+            t = ret.pop()
+            t.w_flags.append("callers_own_note")
+            t.lots.append("L99")
+    elif isinstance(ret, list):
+        ret.append("callers_own_note")
+
+
 def _exec(pytrs, subj, op):
     k = op["op"]
     if k == "create":
@@ -274,7 +319,12 @@ def _exec(pytrs, subj, op):
         subj.config = op["config"]
         return None
     if k == "parse":
-        return subj.parse(commit=op["commit"], **op["kw"])
+        ret = subj.parse(commit=op["commit"], **op["kw"])
+        if op.get("use_ret") and not op["commit"]:
+            snap = enc(ret)
+            _use_returned(pytrs, ret)
+            return {"__snapshot_before_use": snap}
+        return ret
     if k == "parse_tracts":
         return subj.parse_tracts(config=op["config"], **op["kw"])
     if k == "config_tracts":
